@@ -1,10 +1,12 @@
-(* C07 (round 3) — oracle-machine model of adam() in /repo/algorithm/adam/adam.go (adam.Run:
-   objective through AD on Real64 vectors, options StepSize / Constraints / Hook).
-   Differs from adam_dense.go (modelled as [adam_dense] in Model.v, repaired by f6a3a16):
-   here x1.Set(x2) is still done at the END of the iteration, so x1 = x2 whenever the
-   objective is evaluated, the hook receives (x1, gradient, value) of that point, but when
-   MaxIterations is exhausted the UPDATED point — neither evaluated nor submitted to the
-   constraints — is returned with a nil error.  No proofs in this file. *)
+(* C07 (round 3, re-modelled at HEAD d91fb9b) — oracle-machine model of adam() in
+   /repo/algorithm/adam/adam.go (adam.Run: objective through AD on Real64 vectors, options
+   StepSize / Constraints / Hook).  Since d91fb9b x1.Set(x2) comes directly after the NaN /
+   constraints checks (as copy(x1, x2) in adam_dense.go since f6a3a16): x1 is always the last
+   evaluated and accepted point, errors raised before the copy return the PREVIOUS x1, the hook
+   receives (x1, gradient, value) of the point just evaluated, and when MaxIterations is
+   exhausted the last evaluated and accepted point is returned (not the updated x2).
+   Differences to [adam_dense] that remain: the hook gets the function value, StepSize is an
+   option.  No proofs in this file. *)
 From Coq Require Import ZArith List Bool.
 From ADV Require Import Base.Num C07.Model.
 Import ListNotations.
@@ -17,35 +19,36 @@ Variable HK : nat -> hookargs (A := A) -> bool.
 Variable CS : nat -> list A -> bool.
 Variable P : ad_params (A := A).
 
-Fixpoint ag_loop (fuel : nat) (i : Z) (x m v : list A) (b1t b2t : A) (tr : trace (A := A))
+Fixpoint ag_loop (fuel : nat) (i : Z) (x1 x2 m v : list A) (b1t b2t : A) (tr : trace (A := A))
   : outcome (A := A) * trace (A := A) :=
   match fuel with
   | O => (OutOfFuel, tr)
   | S f =>
     if i <? ad_maxit P then
-      let a := F (length tr) (QGrad x) in
-      let tr1 := EvEval (QGrad x) a :: tr in
-      if a_err a then (Err x, tr1)
+      let a := F (length tr) (QGrad x2) in
+      let tr1 := EvEval (QGrad x2) a :: tr in
+      if a_err a then (Err x1, tr1)
       else
         let g := a_g a in
-        if any_nan NM g then (Err x, tr1)
+        if any_nan NM g then (Err x1, tr1)
         else
-          let ok := if ad_cons P then CS (length tr1) x else true in
-          let tr2 := if ad_cons P then EvCons x ok :: tr1 else tr1 in
-          if negb ok then (Err x, tr2)
+          let ok := if ad_cons P then CS (length tr1) x2 else true in
+          let tr2 := if ad_cons P then EvCons x2 ok :: tr1 else tr1 in
+          if negb ok then (Err x1, tr2)
           else
-            let h := mkHook x g (Some (a_y a)) [] in
+            (* x2 is evaluated and accepted: x1.Set(x2) *)
+            let h := mkHook x2 g (Some (a_y a)) [] in
             let stop := if ad_hook P then HK (length tr2) h else false in
             let tr3 := if ad_hook P then EvHook h stop :: tr2 else tr2 in
-            if stop then (HookStop x, tr3)
-            else if ltb NM (norm NM g) (ad_eps P) then (Converged x, tr3)
-            else match ad_upd NM P x m v g b1t b2t with
-                 | None => (Err x, tr3)
-                 | Some (x', m', v') =>
-                     (* beta1_t *= beta1; beta2_t *= beta2; x1.Set(x2) *)
-                     ag_loop f (i + 1) x' m' v' (mul NM b1t (ad_beta1 P)) (mul NM b2t (ad_beta2 P)) tr3
+            if stop then (HookStop x2, tr3)
+            else if ltb NM (norm NM g) (ad_eps P) then (Converged x2, tr3)
+            else match ad_upd NM P x2 m v g b1t b2t with
+                 | None => (Err x2, tr3)
+                 | Some (x2', m', v') =>
+                     (* beta1_t *= beta1; beta2_t *= beta2 *)
+                     ag_loop f (i + 1) x2 x2' m' v' (mul NM b1t (ad_beta1 P)) (mul NM b2t (ad_beta2 P)) tr3
                  end
-    else (Cap x, tr)
+    else (Cap x1, tr)
   end.
 
 Definition adam_generic (fuel : nat) (x0 : list A) : outcome (A := A) * trace (A := A) :=
@@ -53,6 +56,6 @@ Definition adam_generic (fuel : nat) (x0 : list A) : outcome (A := A) * trace (A
   let ok := if ad_cons P then CS 0 x0 else true in
   let tr0 := if ad_cons P then [EvCons x0 ok] else [] in
   if negb ok then (Err x0, tr0)
-  else ag_loop fuel 0 x0 (repeat (zero NM) n) (repeat (zero NM) n) (ad_beta1 P) (ad_beta2 P) tr0.
+  else ag_loop fuel 0 x0 x0 (repeat (zero NM) n) (repeat (zero NM) n) (ad_beta1 P) (ad_beta2 P) tr0.
 
 End ModelAdamGeneric.
